@@ -93,6 +93,15 @@ def one_history(args):
     dt_users = [m for n, m in list(_sys.modules.items())
                 if (n == 'gemato' or n.startswith('gemato.')) and m is not None
                 and getattr(m, 'datetime', None) is _dt]
+    # ... and likewise a `time` module whose time() is the virtual clock
+    import time as _time
+    tm_users = [m for n, m in list(_sys.modules.items())
+                if (n == 'gemato' or n.startswith('gemato.')) and m is not None
+                and getattr(m, 'time', None) is _time]
+    fake_time = types.ModuleType('time')
+    fake_time.__dict__.update(_time.__dict__)
+    fake_time.time = lambda: _Clock.now
+    fake_time.time_ns = lambda: int(_Clock.now * 1e9)
     old_dtmod = gem.gemato.cli.datetime
     old_uefp = gem.gemato.recursiveloader.update_entry_for_path
     recs = []
@@ -101,6 +110,8 @@ def one_history(args):
         fake = _fake_datetime_module()
         for m in dt_users:
             m.datetime = fake
+        for m in tm_users:
+            m.time = fake_time
         gem.gemato.cli.datetime = fake
         A, B = os.path.join(base, 'inc'), os.path.join(base, 'full')
         os.mkdir(A)
@@ -346,6 +357,8 @@ def one_history(args):
         gem.gemato.cli.datetime = old_dtmod
         for m in dt_users:
             m.datetime = _dt
+        for m in tm_users:
+            m.time = _time
         gem.gemato.recursiveloader.update_entry_for_path = old_uefp
         if old_tz is None:
             os.environ.pop('TZ', None)
